@@ -102,7 +102,12 @@ class C06(Property):
 
     def chunkings(self, case, data):
         if case['cuts'] == 'all2':
-            lo, hi = case.get('range', [1, len(data)])
+            rg = case.get('range', [1, len(data)])
+            if rg == 'around-blank':
+                # every offset around the closing tag of the first object that consists of white space only
+                h = data.index(b'</q>')
+                rg = [max(1, h - 12), min(len(data), h + 6)]
+            lo, hi = rg
             return [[c] for c in range(lo, hi)]
         if case['cuts'] == 'bytes':
             return [list(range(1, len(data)))]
